@@ -69,7 +69,7 @@ def oracle(prog, obs, impl):
         if stock is not None and tv > stock * (1 + F(1, 10**3)) and op['op'] == 'solfrom':
             fails.append((i, f"target {float(tv)!r} above the stock's {float(stock)!r} {nb}/{db} was accepted"))
     for i, (op, o) in enumerate(zip(prog['ops'], obs)):
-        if op.get('expect') == 'infeasible' and (o['ok'] or o['exc'] not in ('ValueError', 'LinAlgError')):
+        if op.get('expect') == 'infeasible' and not o.get('skipped') and (o['ok'] or o['exc'] not in ('ValueError', 'LinAlgError')):
             fails.append((i, f"{op.get('why')}: {'accepted' if o['ok'] else 'raised ' + o['exc'] + ' instead of ValueError'}"))
     return fails
 
